@@ -21,6 +21,10 @@ HNAMES = [b"Host", b"host", b"HOST", b"Content-Length", b"content-length", b"Con
 HVALUES = [b"example.com", b"0", b"42", b"keep-alive", b"close", b"bytes=0-100", b"", b"*/*",
            b"a b c", b"x:y", b"::", b"\x80\xff", b"text/html; q=0.8", b"v"]
 WS = [b" ", b"\t", b"  ", b" \t ", b"", b"", b"\r", b"\n", b"\x00", b" \x00 "]
+LONGSEG = b"L" + b"0123456789abcdef" * 18 + b"tail-of-seg"      # one 300-byte path segment
+ABSOLUTE = [b"http://h/a/../b?x", b"http://h", b"http://h/", b"http://example.com:80/a/b/../../c", b"http://h/../..",
+            b"HTTP://H//x/../", b"http://[::1]:8080/p/./q/../r?u=http://z/../y", b"https://h/..", b"ftp://u@h/a/..",
+            b"//h/a/../b", b"http:/h/../x", b"http:///../x"]
 VERSIONS = [b"HTTP/1.1", b"HTTP/1.0", b"HTTP/1.1", b"HTTP/1.1", b"", b"X", b"HTTP 1 1", b"HTTP/1.1\r", b"\nHTTP"]
 
 
@@ -46,13 +50,30 @@ class G:
 
     def target(self):
         r = self.r
-        k = r.randrange(8)
-        if k == 0:
+        k = r.randrange(16)
+        if k < 2:
             t = b"/"
-        elif k == 1:
+        elif k < 4:
             t = b"*"
-        elif k == 2:
+        elif k < 6:
             t = b"example.com:443"
+        elif k == 6:
+            # absolute form (what a proxy receives): "scheme:" is a first segment, the authority follows an empty one
+            t = r.choice(ABSOLUTE)
+            if r.random() < 0.3:
+                t = t + b"/" + b"/".join(r.choice(SEGS) for _ in range(r.randrange(1, 5)))
+        elif k == 7:
+            # long targets: many segments and/or 300-byte segments (> 64 B, > 1 kB, > 4 kB)
+            m = r.randrange(6)
+            if m == 0: segs = [r.choice(SEGS) for _ in range(40)]
+            elif m == 1: segs = [r.choice(SEGS) for _ in range(300)]
+            elif m == 2: segs = [r.choice(SEGS + [LONGSEG] * 3) for _ in range(40)]
+            elif m == 3: segs = [r.choice(SEGS) for _ in range(r.randrange(0, 4))] + [LONGSEG] + [r.choice(SEGS) for _ in range(r.randrange(0, 4))]
+            elif m == 4: segs = [r.choice(SEGS + [LONGSEG] * 8) for _ in range(40)]
+            else: segs = [r.choice(SEGS + [LONGSEG] * 2) for _ in range(120)]
+            t = r.choice([b"/", b"/", b"", b"http://h/"]) + b"/".join(segs)
+            if r.random() < 0.3:
+                t = t + b"?" + b"/".join(r.choice(SEGS) for _ in range(r.choice([1, 40, 300])))
         else:
             nseg = r.randrange(0, 7)
             t = b"/".join(r.choice(SEGS) for _ in range(nseg))
@@ -65,7 +86,7 @@ class G:
             if r.random() < 0.1:
                 t = t + b"/.."
         if r.random() < 0.4:
-            q = b"?" + r.choice([b"", b"a=1", b"a=1&b=2", b"x/../y", b"?", b"q=/..//", b"a?b"])
+            q = b"?" + r.choice([b"", b"a=1", b"a=1&b=2", b"x/../y", b"?", b"q=/..//", b"a?b", b"u=http://h/a/../b"])
             t = t + q
         if r.random() < 0.03:
             p = r.randrange(len(t) + 1)
@@ -229,7 +250,16 @@ class G:
 
     def norm_input(self):
         r = self.r
-        k = r.randrange(5)
+        k = r.randrange(6)
+        if k == 5:
+            # long inputs: ~200 detours, deep descents followed by as many "..", 300-byte segments
+            m = r.randrange(5)
+            if m == 0: t = b"a/../" * r.choice([200, 199, 256])
+            elif m == 1: n = r.choice([100, 200]); t = b"d/" * n + b"../" * (n + r.choice([-1, 0, 1]))
+            elif m == 2: t = b"/".join(r.choice([b"..", b"a", b"bb", b"", b".", LONGSEG]) for _ in range(r.choice([60, 150])))
+            elif m == 3: t = LONGSEG + b"/../" + LONGSEG * r.choice([1, 15])
+            else: t = b"/".join(r.choice(SEGS) for _ in range(300))
+            return r.choice([b"", b"/", b"//"]) + t + r.choice([b"", b"x", b"..", b"/..", b"\x00/x"])
         if k == 0:
             return self.rbytes(r.randrange(0, 14), b"/.a\x00")
         if k == 1:
